@@ -1,8 +1,112 @@
 open BinNums
 open BinPos
+open Datatypes
 
 module Z =
  struct
+  (** val double : coq_Z -> coq_Z **)
+
+  let double = function
+  | Z0 -> Z0
+  | Zpos p -> Zpos (Coq_xO p)
+  | Zneg p -> Zneg (Coq_xO p)
+
+  (** val succ_double : coq_Z -> coq_Z **)
+
+  let succ_double = function
+  | Z0 -> Zpos Coq_xH
+  | Zpos p -> Zpos (Coq_xI p)
+  | Zneg p -> Zneg (Pos.pred_double p)
+
+  (** val pred_double : coq_Z -> coq_Z **)
+
+  let pred_double = function
+  | Z0 -> Zneg Coq_xH
+  | Zpos p -> Zpos (Pos.pred_double p)
+  | Zneg p -> Zneg (Coq_xI p)
+
+  (** val pos_sub : positive -> positive -> coq_Z **)
+
+  let rec pos_sub x y =
+    match x with
+    | Coq_xI p ->
+      (match y with
+       | Coq_xI q -> double (pos_sub p q)
+       | Coq_xO q -> succ_double (pos_sub p q)
+       | Coq_xH -> Zpos (Coq_xO p))
+    | Coq_xO p ->
+      (match y with
+       | Coq_xI q -> pred_double (pos_sub p q)
+       | Coq_xO q -> double (pos_sub p q)
+       | Coq_xH -> Zpos (Pos.pred_double p))
+    | Coq_xH ->
+      (match y with
+       | Coq_xI q -> Zneg (Coq_xO q)
+       | Coq_xO q -> Zneg (Pos.pred_double q)
+       | Coq_xH -> Z0)
+
+  (** val add : coq_Z -> coq_Z -> coq_Z **)
+
+  let add x y =
+    match x with
+    | Z0 -> y
+    | Zpos x' ->
+      (match y with
+       | Z0 -> x
+       | Zpos y' -> Zpos (Pos.add x' y')
+       | Zneg y' -> pos_sub x' y')
+    | Zneg x' ->
+      (match y with
+       | Z0 -> x
+       | Zpos y' -> pos_sub y' x'
+       | Zneg y' -> Zneg (Pos.add x' y'))
+
+  (** val opp : coq_Z -> coq_Z **)
+
+  let opp = function
+  | Z0 -> Z0
+  | Zpos x0 -> Zneg x0
+  | Zneg x0 -> Zpos x0
+
+  (** val mul : coq_Z -> coq_Z -> coq_Z **)
+
+  let mul x y =
+    match x with
+    | Z0 -> Z0
+    | Zpos x' ->
+      (match y with
+       | Z0 -> Z0
+       | Zpos y' -> Zpos (Pos.mul x' y')
+       | Zneg y' -> Zneg (Pos.mul x' y'))
+    | Zneg x' ->
+      (match y with
+       | Z0 -> Z0
+       | Zpos y' -> Zneg (Pos.mul x' y')
+       | Zneg y' -> Zpos (Pos.mul x' y'))
+
+  (** val compare : coq_Z -> coq_Z -> comparison **)
+
+  let compare x y =
+    match x with
+    | Z0 -> (match y with
+             | Z0 -> Eq
+             | Zpos _ -> Lt
+             | Zneg _ -> Gt)
+    | Zpos x' -> (match y with
+                  | Zpos y' -> Pos.compare x' y'
+                  | _ -> Gt)
+    | Zneg x' ->
+      (match y with
+       | Zneg y' -> coq_CompOpp (Pos.compare x' y')
+       | _ -> Lt)
+
+  (** val leb : coq_Z -> coq_Z -> bool **)
+
+  let leb x y =
+    match compare x y with
+    | Gt -> false
+    | _ -> true
+
   (** val eqb : coq_Z -> coq_Z -> bool **)
 
   let eqb x y =
@@ -16,4 +120,16 @@ module Z =
     | Zneg p -> (match y with
                  | Zneg q -> Pos.eqb p q
                  | _ -> false)
+
+  (** val of_nat : nat -> coq_Z **)
+
+  let of_nat = function
+  | O -> Z0
+  | S n0 -> Zpos (Pos.of_succ_nat n0)
+
+  (** val of_N : coq_N -> coq_Z **)
+
+  let of_N = function
+  | N0 -> Z0
+  | Npos p -> Zpos p
  end
